@@ -39,72 +39,12 @@ def iter_rows(cases, mout):
 # a failure is attributed to a finding only when the program text contains the construct the
 # finding is about AND the symptom is the one that construct produces.
 PAT = {
-    "multi-assign-leftover": re.compile(r"[({]\s*[A-Za-z_][\w.]*(\s*,?\s+[A-Za-z_][\w.]*)+\s+=\s|\{[^{}]*\w\s*,\s*\w[^{}]*=[^{}]*\}"),
-    "quote-multi-arg": re.compile(r"\(quote\s+[^\s()]+\s+[^\s)]"),
-    "func-decl-returns": re.compile(r"\(func\s+\w+\s+\[[^\]]*\]\s+\[[^\]]*:[^\]]*\s[^\]]*:[^\]]*\]\s*\)"),
-    "valueless-form": re.compile(r"\((begin|newScope|return|quote|include)\s*\)|\((set|def)\s+(%|\(quote|\(arrayidx|\(hashidx)|\(func\s+\w+\s+\[[^\]]*\]\s+\[\s*\]\s*\)|\^\(begin\)"),
+    # (func name [..] [r:T ..]) with at least one declared return and no body
+    "func-decl-returns": re.compile(r"\(func\s+\w+\s+\[[^\]]*\]\s+\[[^\]]*\w+:[^\]]*\]\s*\)"),
+    # (return) with no arguments; set/def whose target is %sym, (quote sym), (arrayidx ..) or (hashidx ..)
+    "valueless-form": re.compile(r"\(return\s*\)|\((set|def)\s+(%|\(quote|\(arrayidx|\(hashidx)"),
 }
-SYMPTOM_OF = {"multi-assign-leftover": "extra", "quote-multi-arg": "extra", "func-decl-returns": "extra",
-              "valueless-form": "missing", "subgen-scopes-reset": "scope"}
-
-
-def sexp_parse(text):
-    """tiny reader: nested lists of atoms; [] and {} are treated like (); comments dropped"""
-    text = re.sub(r"//[^\n]*", " ", text)
-    toks = re.findall(r"[()\[\]{}]|\"(?:[^\"\\]|\\.)*\"|`[^`]*`|[^\s()\[\]{}]+", text)
-    stack = [[]]
-    for t in toks:
-        if t in "([{":
-            stack.append([])
-        elif t in ")]}":
-            if len(stack) > 1:
-                x = stack.pop()
-                stack[-1].append(x)
-        else:
-            stack[-1].append(t)
-    while len(stack) > 1:
-        x = stack.pop()
-        stack[-1].append(x)
-    return stack[0]
-
-
-def jump_in_reset_region(form, in_reset=False, scopes_since=0):
-    """True when a break/continue sits under a let/letseq/newScope that was opened inside a
-    non-last and/or operand or a cond predicate (where the sub-generator restarted at scopes=0)
-    with no enclosing for loop in between."""
-    if not isinstance(form, list) or not form:
-        return False
-    head = form[0] if isinstance(form[0], str) else None
-    if head in ("break", "continue"):
-        return in_reset and scopes_since > 0
-    if head == "for":
-        return any(jump_in_reset_region(x, False, 0) for x in form[1:])
-    if head in ("fn", "defn", "defmac", "quote"):
-        return any(jump_in_reset_region(x, False, 0) for x in form[1:]) if head != "quote" else False
-    if head in ("and", "or"):
-        ops = form[1:]
-        return any(jump_in_reset_region(x, True, 0) for x in ops[:-1]) or \
-            (bool(ops) and jump_in_reset_region(ops[-1], in_reset, scopes_since))
-    if head == "cond":
-        ops = form[1:]
-        for i, x in enumerate(ops):
-            is_pred = (i % 2 == 0) and i != len(ops) - 1
-            if is_pred:
-                if jump_in_reset_region(x, True, 0):
-                    return True
-            elif jump_in_reset_region(x, in_reset, scopes_since):
-                return True
-        return False
-    if head in ("let", "letseq", "newScope"):
-        return any(jump_in_reset_region(x, in_reset, scopes_since + 1) for x in form[1:])
-    return any(jump_in_reset_region(x, in_reset, scopes_since) for x in form)
-
-
-def has_subgen_reset_jump(prog):
-    try:
-        return any(jump_in_reset_region(f) for f in sexp_parse(prog))
-    except Exception:
-        return False
+SYMPTOM_OF = {"func-decl-returns": "extra", "valueless-form": "missing"}
 
 
 def shape_len(state):
@@ -148,6 +88,8 @@ def symptom(kind, inp, impl, model):
         m = re.match(r"nil (\d+),(\d+),", impl)
         if m and int(m.group(2)) > 1:
             return "scope"
+        if m and int(m.group(1)) > 0:
+            return "extra"
         return "other"
     return "other"
 
@@ -210,17 +152,13 @@ def main(argv):
         by_prog.setdefault(f["program"], []).append(f)
     prop_level, other = [], []
     for prog, fl in by_prog.items():
-        scope_mech = any("repair=break-scopes:ok" in f["model"] for f in fl)
         rest = []
         for f in fl:
             fid = None
-            if f["symptom"] == "scope" and scope_mech and has_subgen_reset_jump(prog):
-                fid = "subgen-scopes-reset"
-            else:
-                for k, pat in PAT.items():
-                    if SYMPTOM_OF[k] == f["symptom"] and pat.search(prog):
-                        fid = k
-                        break
+            for k, pat in PAT.items():
+                if SYMPTOM_OF[k] == f["symptom"] and pat.search(prog):
+                    fid = k
+                    break
             if fid and c.known_finding(fid, (f["what"] + " :: " + prog)[:160].replace("\n", " ")):
                 continue
             rest.append(f)
